@@ -26,11 +26,13 @@ pub fn schema() -> Schema {
     b.build().unwrap()
 }
 
-pub fn db_config(cache: bool) -> DBConfig {
+pub fn db_config(cache: bool) -> DBConfig { db_config_b(cache, StorageConfig::default().bucket_overload_size) }
+
+pub fn db_config_b(cache: bool, bucket_overload_size: usize) -> DBConfig {
     DBConfig {
         name: DB.to_string(),
         description: "verif".to_string(),
-        storage: StorageConfig { compress_level: 0, cache_max_capacity: if cache { 10000 } else { 0 }, ..Default::default() },
+        storage: StorageConfig { compress_level: 0, cache_max_capacity: if cache { 10000 } else { 0 }, bucket_overload_size, ..Default::default() },
         lock: None,
     }
 }
@@ -54,6 +56,7 @@ pub enum Op {
     Update { id: u64, a: Option<u64>, b: Option<u64> },
     Remove { id: u64 },
     Get { id: u64 },
+    QueryIds { a: u64 },
     Flush,
     SaveExt { key: String, val: u64 },
     RemoveExt { key: String },
@@ -70,14 +73,14 @@ pub enum Op {
 impl Op {
     pub fn name(&self) -> &'static str {
         match self {
-            Op::Add { .. } => "add", Op::Update { .. } => "update", Op::Remove { .. } => "remove", Op::Get { .. } => "get",
+            Op::Add { .. } => "add", Op::Update { .. } => "update", Op::Remove { .. } => "remove", Op::Get { .. } => "get", Op::QueryIds { .. } => "query_ids",
             Op::Flush => "flush", Op::SaveExt { .. } => "save_extension", Op::RemoveExt { .. } => "remove_extension",
             Op::CompactBtree => "compact_btree_index", Op::CompactBm25 => "compact_bm25_index", Op::Reconcile => "reconcile_storage",
             Op::Close => "close", Op::SetReadOnly(_) => "set_read_only", Op::DbSetReadOnly(_) => "db_set_read_only",
             Op::CloseCollection => "close_collection", Op::DeleteCollection => "delete_collection",
         }
     }
-    pub fn is_mutating(&self) -> bool { !matches!(self, Op::Get { .. }) }
+    pub fn is_mutating(&self) -> bool { !matches!(self, Op::Get { .. } | Op::QueryIds { .. }) }
 }
 
 /// canonical return value of an operation
@@ -86,6 +89,7 @@ pub enum Ret {
     Id(u64),
     Doc(u64, u64),        // (a, b) of the returned document
     NoDoc,                // remove -> Ok(None)
+    Ids(Vec<u64>),        // query_all_ids
     Bool(bool),
     Unit,
     NotFound,
@@ -94,7 +98,7 @@ pub enum Ret {
     Err(String),
 }
 impl Ret {
-    pub fn is_ok(&self) -> bool { matches!(self, Ret::Id(_) | Ret::Doc(..) | Ret::NoDoc | Ret::Bool(_) | Ret::Unit) }
+    pub fn is_ok(&self) -> bool { matches!(self, Ret::Id(_) | Ret::Doc(..) | Ret::NoDoc | Ret::Ids(_) | Ret::Bool(_) | Ret::Unit) }
     pub fn show(&self) -> String { format!("{self:?}") }
 }
 
@@ -139,13 +143,16 @@ async fn open_coll(db: &AndaDB, bm25: bool) -> Result<Arc<Collection>, DBError> 
 impl World {
     /// fresh store, database "db", collection "c" with a B-tree index on `a` (and BM25 on `t`),
     /// the given documents added and flushed
-    pub fn new(cache: bool, bm25: bool, docs: &[(u64, u64)]) -> World {
+    pub fn new(cache: bool, bm25: bool, docs: &[(u64, u64)]) -> World { World::new_b(cache, bm25, docs, StorageConfig::default().bucket_overload_size) }
+
+    /// like `new`, with a chosen index bucket size (tiny buckets make compaction do real work)
+    pub fn new_b(cache: bool, bm25: bool, docs: &[(u64, u64)], bucket: usize) -> World {
         let store = SchedStore::new();
         let dyn_store: Arc<dyn ObjectStore> = Arc::new(store.clone());
         let ds = dyn_store.clone();
         let docs = docs.to_vec();
         let (db, coll) = drive(async move {
-            let db = AndaDB::connect(ds, db_config(cache)).await.expect("db");
+            let db = AndaDB::connect(ds, db_config_b(cache, bucket)).await.expect("db");
             let coll = open_coll(&db, bm25).await.expect("collection");
             for (a, b) in docs {
                 let mut d = Document::new(coll.schema());
@@ -185,6 +192,9 @@ impl World {
             }),
             Op::Get { id } => Box::pin(async move {
                 match c.get(id).await { Ok(d) => { let (a, b) = doc_ab(&d); Ret::Doc(a, b) } Err(e) => classify(e) }
+            }),
+            Op::QueryIds { a } => Box::pin(async move {
+                match c.query_all_ids(Filter::Field(("a".to_string(), RangeQuery::Eq(Fv::U64(a))))).await { Ok(mut v) => { v.sort(); Ret::Ids(v) } Err(e) => classify(e) }
             }),
             Op::Flush => Box::pin(async move { match c.flush(unix_ms()).await { Ok(b) => Ret::Bool(b), Err(e) => classify(e) } }),
             Op::SaveExt { key, val } => Box::pin(async move { match c.save_extension(key, Fv::U64(val)).await { Ok(()) => Ret::Unit, Err(e) => classify(e) } }),
